@@ -581,15 +581,19 @@ def run_variant(task):
     if new == text:
         return {"i": i, "label": label, "same_text": True, "done": done, "ok": True}
     obs, r = observe(fname, new, timeout)
-    res = {"i": i, "label": label, "same_text": False, "done": done, "ok": obs == expected,
+    res = {"i": i, "label": label, "same_text": False, "done": done, "ok": obs == expected, "outcome": obs[0],
            "h": hashlib.blake2b(new.encode(), digest_size=8).hexdigest()}
     if not res["ok"]:
-        res.update(shrink(i, steps, expected))
         res["got"] = [obs[0], obs[1], len(obs[2]) if obs[2] is not None else None]
         res["reports"] = [[x[0], x[1], x[2][0][3] if x[2] else None] for x in r["reports"] if x[0] != "warning"][:5]
         res["exc"] = r["exc"]
         res["variant"] = new
     return res
+
+
+def run_shrink(task):
+    i, label, steps, expected = task
+    return shrink(i, steps, expected)
 
 
 def shrink(i, steps, expected):
@@ -659,9 +663,9 @@ def main(run):
 
     # ---------------------------------------------------------------- originals, sites, windows
     orig = pmap(run_original, list(range(n_prog)))
-    for (pid, fname, text, _), o in zip(progs, orig):
-        if o["obs"][0] != "ok":
-            raise MachineryError(f"program {pid} does not assemble on this tree: {o['obs'][0]} {o['errors']} {o['exc']}")
+    # The original is one spelling among the others: every variant is compared with it, whatever its outcome.
+    not_ok = [pid for (pid, *_), o in zip(progs, orig) if o["obs"][0] != "ok"]
+    run.note("originals_not_assembling_on_this_tree", not_ok)
     run.add_eval(n_prog)
     wins = {}
     for (pid, *_), o in zip(progs, orig):
@@ -780,6 +784,8 @@ def main(run):
     variants_per_rule = {r: 0 for r in lex.RULES}
     comp_variants = 0
     unchanged = 0
+    failing = []
+    some_ok = set()
     for task, res in zip(tasks, results):
         i, label, steps, expected = task
         pid, fname, text, _ = progs[i]
@@ -788,6 +794,8 @@ def main(run):
             continue
         run.add_eval(1)
         run.add_nontrivial((pid, res["h"]))
+        if res["outcome"] == "ok":
+            some_ok.add(pid)
         for r, n_done, n_sites in res["done"]:
             rewritten[r] += n_done
         if label.startswith("comp#"):
@@ -795,20 +803,32 @@ def main(run):
         else:
             variants_per_rule[label.split("#")[0]] += 1
         if not res["ok"]:
-            st = res.get("single_site_step") or res.get("step")
-            summary = (f"{pid}: variant by {label} {json.dumps(steps)[:200]} assembles differently: expected "
-                       f"({expected[0]}, base {expected[1]}, {len(expected[2])} bytes) got {res['got']} reports={res['reports']} exc={res['exc']}; "
-                       f"first differing step {res.get('first_bad_step')} {json.dumps(st)}; line {res.get('line_before')!r} -> {res.get('line_after')!r}")
-            files = {"variant.mac": res["variant"], "steps.json": json.dumps(steps, indent=1)}
-            if "before_step" in res:
-                files["before_step.mac"] = res["before_step"]
-                files["after_step.mac"] = res["after_step"]
-            if pid.startswith("gen/"):
-                files["original.mac"] = text
-            run.violation(summary, {"program": pid, "file": fname, "label": label, "steps": steps, "got": res["got"],
-                                    "reports": res["reports"], "first_bad_step": res.get("first_bad_step"),
-                                    "single_site_step": res.get("single_site_step"),
-                                    "line_before": res.get("line_before"), "line_after": res.get("line_after")}, files=files)
+            failing.append((task, res))
+    for pid in not_ok:
+        if pid not in some_ok:
+            run.not_exercised.append(f"{pid}: fails to assemble in the original and in every variant tried -- nothing to compare")
+    # diagnosis (bounded): shrink a few failing cases, small programs and short behaviours first
+    failing.sort(key=lambda tr: (len(progs[tr[0][0]][2]), len(tr[0][2])))
+    detail = pmap(run_shrink, [t for t, _ in failing[:16]]) if failing else []
+    for k, (task, res) in enumerate(failing):
+        i, label, steps, expected = task
+        pid, fname, text, _ = progs[i]
+        d = detail[k] if k < len(detail) else {}
+        st = d.get("single_site_step") or d.get("step")
+        exp = f"({expected[0]}, base {expected[1]}, {len(expected[2]) if expected[2] is not None else None} bytes)"
+        summary = (f"{pid}: variant by {label} {json.dumps(steps)[:200]} assembles differently from the original spelling: original "
+                   f"{exp} variant {res['got']} reports={res['reports']} exc={res['exc']}; "
+                   f"first differing step {d.get('first_bad_step')} {json.dumps(st)}; line {d.get('line_before')!r} -> {d.get('line_after')!r}")
+        files = {"variant.mac": res["variant"], "steps.json": json.dumps(steps, indent=1)}
+        if "before_step" in d:
+            files["before_step.mac"] = d["before_step"]
+            files["after_step.mac"] = d["after_step"]
+        if pid.startswith("gen/"):
+            files["original.mac"] = text
+        run.violation(summary, {"program": pid, "file": fname, "label": label, "steps": steps, "got": res["got"],
+                                "reports": res["reports"], "first_bad_step": d.get("first_bad_step"),
+                                "single_site_step": d.get("single_site_step"),
+                                "line_before": d.get("line_before"), "line_after": d.get("line_after")}, files=files)
     run.note("variants_single_rule", variants_per_rule)
     run.note("variants_composed", comp_variants)
     run.note("variants_with_unchanged_text(skipped)", unchanged)
